@@ -145,6 +145,19 @@ def run(index: RepoIndex, rep) -> None:
     rep.rule('C09.R3', 'scenery is not holdable; keys are', floor=12)
     rep.rule('C09.R4', 'obstacles move only by a true exchange with an in-grid Floor neighbour '
              '(C11.R1)', floor=10)
+    rep.rule('C09.R5', 'the per-step copy preserves every object: deep copy by pickle / '
+             'deepcopy, default copy protocol (or a __reduce__ that rebuilds every constructor '
+             'argument)', floor=15)
+    from .c03 import copy_protocol
+    copy_protocol(index, rep, 'C09.R5')
+    fc = index.func('gym_gridverse/utils/fast_copy.py', 'fast_copy')
+    b = fc.body()
+    xp = fc.node.args.args[0].arg
+    good = {f'pickle.loads(pickle.dumps({xp}))', f'copy.deepcopy({xp})', f'deepcopy({xp})'}
+    rep.check(len(b) == 1 and isinstance(b[0], ast.Return) and src(b[0].value) in good,
+              'C09.R5', 'gym_gridverse/utils/fast_copy.py', 'fast_copy', fc.node.lineno,
+              src(b[-1]), 'fast_copy is not a plain deep copy of its argument (a cached or '
+              'partial copy can hand back the objects of another state)', 'fast_copy deep')
     effect_table(index, rep, 'C09.R1', {'cell', 'held', 'swap'})
     c10.box_rule(index, rep, 'C09.R1')
     exchange(index, rep, 'C09.R2')
